@@ -135,5 +135,6 @@ Definition run_range (c : value) : value :=
   | VL [VI 1; VB str; VI s] => range_obs (of_string str s)
   | VL [VI 2; VI f; VI t; VI s; VI s'] => range_obs (with_size (mk_num f t s) s')
   | VL [VI 3; VB str; VI s; VI s'] => range_obs (with_size (of_string str s) s')
+  | VL [VI 4; VI _; VI _; VI _; VI f; VI t; VI s; VI _] => range_obs (mk_num f t s)      (* assignment replaces everything *)
   | _ => verr
   end.
